@@ -43,6 +43,15 @@ def unfold(t):
         return t
     if len(t) == 3 and t[0] == "ccall" and t[1] == "%s::arg" % CF and t[2] == SELF:
         return fn_("atan2", Y, X)
+    if len(t) == 4 and t[0] == "ccall" and str(t[1]).endswith("::polar"):
+        # polar(r, th) is (r cos th, r sin th) (primitive-forms/polar decides that)
+        r_, th_ = unfold(t[2]), unfold(t[3])
+        return ("cplx", mul(r_, fn_("cos", th_)), mul(r_, fn_("sin", th_)))
+    if len(t) == 3 and t[0] == "ccall" and t[1] in ("%s::tan" % CF, "%s::tanh" % CF):
+        # tan z is sin z / cos z, tanh z is sinh z / cosh z (quotients/* decide that)
+        z_ = unfold(t[2])
+        a_, b_ = ("sin", "cos") if t[1].endswith("::tan") else ("sinh", "cosh")
+        return ("cop", DIV, cc(a_, z_), cc(b_, z_))
     return tuple(unfold(x) if isinstance(x, tuple) else x for x in t)
 
 
